@@ -62,8 +62,11 @@ VT(n) == [n |-> n, t |-> VoidTag]
 TT(n, t) == [n |-> n, t |-> t]
 ScenD ==
   { << P("nsa", DUnionS("Ua", ca, ea, ta)), P("nsa", DUnionS("Ub", cb, eb, tb)),
-       P("nsa", DStruct0("Sa", NoRef, <<f1>>)) >> :
+       P("nsa", DStruct0("Sa", NoRef, <<f1>>)) >> \o uc :
       ca \in BOOLEAN, cb \in BOOLEAN,
+      \* a third level: the open/closed rule and tag clashes along chains of three
+      uc \in {<<>>, <<P("nsa", DUnionS("Uc", TRUE, R("Ub"), <<VT("t5")>>))>>, <<P("nsa", DUnionS("Uc", FALSE, R("Ub"), <<VT("t1")>>))>>,
+              <<P("nsa", DUnionS("Uc", FALSE, R("Ua"), <<VT("t5")>>))>>},
       ea \in {NoRef, R("Ub"), R("Sa")},
       eb \in {NoRef, R("Ua")},
       ta \in {<<VT("t1"), TT("t2", R("Sa"))>>, <<VT("t1"), VT("other")>>, <<VT("t1"), TT("t1", I32)>>,
